@@ -143,7 +143,7 @@ impl Property for C03 {
          oracle = exact partial evaluation of the raw polynomial + reference evaluator at s1 u s2; non-trivial = s1, s2 non-empty and a term mixing a fixed and a free variable; distinct = sha256(object, s1, s2, steps)"
     }
     fn required_labels(&self) -> Vec<String> {
-        ["level=function", "level=constraint", "level=removed-constraint", "level=instance", "removed-constraint", "dependency", "non-normalised", "two-step", "fixed-id-not-occurring", "regime=general", "regime=dyadic", "mixed-term"]
+        ["level=function", "level=constraint", "level=removed-constraint", "level=instance", "removed-constraint", "dependency", "non-normalised", "two-step", "fixed-id-not-occurring", "regime=general", "regime=dyadic", "mixed-term", "big-sorted-function", "big-sorted-function-repeats-an-id"]
             .iter()
             .map(|s| s.to_string())
             .collect()
@@ -170,17 +170,68 @@ impl Property for C03 {
         let mask1 = t.u16();
         let mask2 = t.u16();
         if level <= 2 {
-            let ids = gen_ids(t, 5);
-            let cfg = FuncCfg { regime, ..FuncCfg::default() };
-            let f = gen_function(t, &ids, &cfg, ctx);
-            let used = syntactic_ids(&f);
-            let mut pool: BTreeSet<u64> = used.clone();
-            if t.p(100) {
-                pool.extend(ids.iter().copied());
-                pool.insert(424242);
-            }
-            let state = gen_state(t, pool.iter().copied(), regime);
-            let (s1, s2) = split_state(mask1, &state);
+            let big = t.p(14);
+            let (f, used, s1, s2) = if big {
+                // a long function (sizes around the powers of two) whose terms are listed in ascending id order, some ids
+                // twice in a row; only one to three variables are fixed
+                ctx.label("big-sorted-function");
+                let n = *t.pick(&SIZES[..13]);
+                let seed = t.byte() as u64;
+                let variant = t.choice(3) as u8;
+                let base = *t.pick(&[0u64, 1, 40]);
+                let mut terms: Vec<(Vec<u64>, f64)> = vec![];
+                let mut id = base;
+                for i in 0..n as u64 {
+                    terms.push((vec![id], derived_coeff(seed, i)));
+                    // repeat this id for the next term in about one case out of six
+                    if (derived_coeff(seed ^ 0x33, i).abs() * 16.0) as u64 % 6 != 0 {
+                        id += 1;
+                    } else {
+                        ctx.label("big-sorted-function-repeats-an-id");
+                    }
+                }
+                terms.push((vec![], derived_coeff(seed, 9_999)));
+                if variant == 1 {
+                    terms.push((vec![base, base + 1], 1.5));
+                }
+                let fcfg = FuncCfg { regime, force_variant: variant + 2, unnormalised: true, ..FuncCfg::default() };
+                // render keeps the order of the raw list
+                let f = render(t, &terms, &fcfg, &mut Ctx::new(ctx.tier, false));
+                let used = syntactic_ids(&f);
+                let all: Vec<u64> = used.iter().copied().collect();
+                let mut s1 = v1::State::default();
+                let mut s2 = v1::State::default();
+                let nfix = 1 + (mask2 % 3) as usize;
+                let mut fixed: BTreeSet<u64> = BTreeSet::new();
+                for k in 0..nfix {
+                    // prefer ids that occur twice
+                    let cand = all[((mask1 as usize).wrapping_mul(k + 1).wrapping_add(k * 7)) % all.len()];
+                    let twice = terms.windows(2).find(|w| w[0].0 == w[1].0 && w[0].0.len() == 1 && w[0].0[0] >= cand).map(|w| w[0].0[0]);
+                    fixed.insert(if order { twice.unwrap_or(cand) } else { cand });
+                }
+                for id in &all {
+                    let v = derived_value(seed, *id);
+                    if fixed.contains(id) {
+                        s1.entries.insert(*id, v);
+                    } else {
+                        s2.entries.insert(*id, v);
+                    }
+                }
+                (f, used, s1, s2)
+            } else {
+                let ids = gen_ids(t, 5);
+                let cfg = FuncCfg { regime, ..FuncCfg::default() };
+                let f = gen_function(t, &ids, &cfg, ctx);
+                let used = syntactic_ids(&f);
+                let mut pool: BTreeSet<u64> = used.clone();
+                if t.p(100) {
+                    pool.extend(ids.iter().copied());
+                    pool.insert(424242);
+                }
+                let state = gen_state(t, pool.iter().copied(), regime);
+                let (s1, s2) = split_state(mask1, &state);
+                (f, used, s1, s2)
+            };
             if s1.entries.keys().any(|k| !used.contains(k)) {
                 ctx.label("fixed-id-not-occurring");
             }
